@@ -130,7 +130,8 @@ class Parser(object):
         # got passed in.
         cur_token = self.lexer.cur_token or token
         valid_prev_token = self.lexer.valid_prev_token
-        if (cur_token is not None and cur_token.type == 'DIV' and
+        if (cur_token is not None and
+                cur_token.type in ('DIV', 'DIVEQUAL') and
                 valid_prev_token is not None and valid_prev_token.type in (
                     'RBRACE', 'PLUSPLUS', 'MINUSMINUS')):
             # this is the most pathological case in JavaScript; given
@@ -138,7 +139,8 @@ class Parser(object):
             # below to signal the specific "safe" cases, so we have to
             # wait until such an error to occur for specific tokens and
             # attempt to backtrack here
-            regex_token = self.lexer.backtracked_token(pos=1)
+            regex_token = self.lexer.backtracked_token(
+                pos=len(cur_token.value))
             if regex_token.type == 'REGEX':
                 self.parser.errok()
                 return regex_token
